@@ -7,6 +7,7 @@ instruction, evaluating branch conditions that depend only on tracked values
 and forking on all others.  Events met on the way are recorded.  The state
 space is (block, tracked environment), finite, explored exhaustively.
 """
+from .build import Broken
 from .ir import eval_icmp
 from .facts import const_val
 
@@ -124,7 +125,7 @@ def explore(f, start, env, classify, stop_at=(), max_states=20000, memory_vals=N
         b, pos, envt, events, blocks, pred, visited = stack.pop()
         n += 1
         if n > max_states:
-            raise RuntimeError("D-FIN state space exceeds bound in %s" % f.name)
+            raise Broken("D-FIN: the finite-class exploration of %s exceeds its state bound (loops whose trip counts the class representatives do not fix): not decided" % f.name)
         e = dict(envt)
         ids = f.blocks[b].insts
         ended = False
